@@ -296,6 +296,9 @@ func themes(c *mc.Ctx, tor [8]ref.Point, lam []*big.Int, benc []byte) {
 	// ---------------------------------------------------------------- T5: special points reached many ways
 	specialPoints(c, tor, lam, gB)
 
+	// ---------------------------------------------------------------- T11: memory the library hands out
+	handedOut(c, tor, lam)
+
 	// ---------------------------------------------------------------- T8: Equal on strings that differ in exactly one byte
 	bases := [][]byte{benc, make([]byte, 32), bytes.Repeat([]byte{0xff}, 32), mc.Bytes(c.Seed, "c10-onebyte", 0, 32)}
 	alphed.Par(c, "equal-one-byte", len(bases)*32*3, func(w *mc.W, i int) {
